@@ -12,3 +12,7 @@ import Heathcliff.Props.C04
 #print axioms HC.C04.three_pow_two_pow_pos
 #print axioms HC.C04.eltFromStep_refuses'
 #print axioms HC.C04.eltsAll_contains_le
+#print axioms HC.C04.gadget_delta
+#print axioms HC.C04.gadget_crt
+#print axioms HC.C04.keyswitch_phase
+#print axioms HC.C04.moddown_round
